@@ -1,7 +1,100 @@
 import GoawkModel.Basic
-/-! Line-protocol handler for property C04: one request line (already split into words, without the leading `c04`) → one answer line. -/
-namespace GoawkModel.Drv.C04
+import GoawkModel.C04
+/-! Line-protocol handler for property C04 (request already split into words, without the leading `c04`):
 
-def handle (_args : List String) : String := "unimplemented"
+  `parse <pc> tok*`   → `ok <#tokens left> <tree>` | `err syntax` | `err unsupported`     (`parseExpr`; pc = 0 plain, 1 print argument)
+  `min <pc> tok*`     → `ok tok*`   the model's minimal rendering of the (group-stripped) parse of the tokens
+  `full <pc> tok*`    → `ok tok*`   the model's fully parenthesised rendering of the (group-stripped) parse
+
+Token words: `n<i>` number, `v<i>` name, `s<i>` string, `f<i>` builtin; operators by their AWK spelling; `nl` newline, `eof`. -/
+namespace GoawkModel.Drv.C04
+open GoawkModel GoawkModel.C04
+
+def aopWord : AOp → String
+  | .set => "=" | .add => "+=" | .sub => "-=" | .mul => "*=" | .div => "/=" | .mod => "%=" | .pow => "^="
+def cmpWord : Cmp → String
+  | .eq => "==" | .ne => "!=" | .lt => "<" | .le => "<=" | .gt => ">" | .ge => ">="
+
+def tokWord : Tok → String
+  | .num i => s!"n{i}" | .name i => s!"v{i}" | .str i => s!"s{i}" | .func i => s!"f{i}"
+  | .lparen => "(" | .rparen => ")" | .lbracket => "[" | .rbracket => "]" | .comma => "," | .question => "?" | .colon => ":"
+  | .asg op => aopWord op
+  | .or => "||" | .and => "&&" | .in_ => "in" | .match_ false => "~" | .match_ true => "!~" | .cmp c => cmpWord c
+  | .add => "+" | .sub => "-" | .mul => "*" | .div => "/" | .mod => "%" | .pow => "^" | .not => "!"
+  | .incr => "++" | .decr => "--" | .dollar => "$" | .at => "@" | .getline => "getline" | .pipe => "|" | .append => ">>"
+  | .newline => "nl" | .semi => ";" | .rbrace => "}" | .eof => "eof" | .other => "other"
+
+def wordTok (w : String) : Option Tok :=
+  match w with
+  | "(" => some .lparen | ")" => some .rparen | "[" => some .lbracket | "]" => some .rbracket | "," => some .comma
+  | "?" => some .question | ":" => some .colon
+  | "=" => some (.asg .set) | "+=" => some (.asg .add) | "-=" => some (.asg .sub) | "*=" => some (.asg .mul)
+  | "/=" => some (.asg .div) | "%=" => some (.asg .mod) | "^=" => some (.asg .pow)
+  | "||" => some .or | "&&" => some .and | "in" => some .in_ | "~" => some (.match_ false) | "!~" => some (.match_ true)
+  | "==" => some (.cmp .eq) | "!=" => some (.cmp .ne) | "<" => some (.cmp .lt) | "<=" => some (.cmp .le)
+  | ">" => some (.cmp .gt) | ">=" => some (.cmp .ge)
+  | "+" => some .add | "-" => some .sub | "*" => some .mul | "/" => some .div | "%" => some .mod | "^" => some .pow
+  | "!" => some .not | "++" => some .incr | "--" => some .decr | "$" => some .dollar | "@" => some .at
+  | "getline" => some .getline | "|" => some .pipe | ">>" => some .append
+  | "nl" => some .newline | ";" => some .semi | "}" => some .rbrace | "eof" => some .eof | "other" => some .other
+  | _ =>
+    match w.toList with
+    | c :: ds =>
+      match (String.ofList ds).toNat? with
+      | some i =>
+        if c == 'n' then some (.num i) else if c == 'v' then some (.name i) else if c == 's' then some (.str i)
+        else if c == 'f' then some (.func i) else none
+      | none => none
+    | [] => none
+
+def uopWord : UOp → String
+  | .neg => "-" | .pos => "+" | .not => "!"
+def bopWord : BOp → String
+  | .or => "||" | .and => "&&" | .match_ => "~" | .notMatch => "!~" | .cmp c => cmpWord c | .concat => "cat"
+  | .add => "+" | .sub => "-" | .mul => "*" | .div => "/" | .mod => "%" | .pow => "^"
+
+def showTree : Expr → String
+  | .none => "nil"
+  | .num i => s!"n{i}"
+  | .var i => s!"v{i}"
+  | .str i => s!"s{i}"
+  | .group e => "(grp " ++ showTree e ++ ")"
+  | .unary op e => "(un " ++ uopWord op ++ " " ++ showTree e ++ ")"
+  | .binary op l r => "(bin " ++ bopWord op ++ " " ++ showTree l ++ " " ++ showTree r ++ ")"
+  | .cond c t f => "(cond " ++ showTree c ++ " " ++ showTree t ++ " " ++ showTree f ++ ")"
+  | .assign op l r => "(asg " ++ aopWord op ++ " " ++ showTree l ++ " " ++ showTree r ++ ")"
+  | .inArr e a => "(in " ++ showTree e ++ s!" v{a})"
+  | .incr pre dec e => "(incr " ++ (if pre then "pre" else "post") ++ " " ++ (if dec then "--" else "++") ++ " " ++ showTree e ++ ")"
+  | .field e => "(fld " ++ showTree e ++ ")"
+  | .index a i => s!"(idx v{a} " ++ showTree i ++ ")"
+  | .getline c t f => "(getline " ++ showTree c ++ " " ++ showTree t ++ " " ++ showTree f ++ ")"
+
+def showToks (ts : List Tok) : String := String.intercalate " " (ts.map tokWord)
+
+def errWord : Err → String
+  | .syntax => "err syntax"
+  | .unsupported => "err unsupported"
+
+def handle (args : List String) : String :=
+  match args with
+  | cmd :: pcw :: ws =>
+    let pc := pcw == "1"
+    match ws.mapM wordTok with
+    | none => "bad-token"
+    | some ts =>
+      if cmd == "print" then
+        match parsePrint ts with
+        | .error x => errWord x
+        | .ok (a, none, rest) => s!"ok {rest.length} (print " ++ showTree a ++ " - nil)"
+        | .ok (a, some (t, d), rest) => s!"ok {rest.length} (print " ++ showTree a ++ " " ++ tokWord t ++ " " ++ showTree d ++ ")"
+      else
+      match parseExpr pc ts with
+      | .error x => errWord x
+      | .ok (e, rest) =>
+        if cmd == "parse" then s!"ok {rest.length} " ++ showTree e
+        else if cmd == "min" then "ok " ++ showToks (renderMin pc (strip e))
+        else if cmd == "full" then "ok " ++ showToks (renderFull (strip e))
+        else "bad-request"
+  | _ => "bad-request"
 
 end GoawkModel.Drv.C04
